@@ -219,6 +219,14 @@ def run_stage(case, res):
         ov = {case["subproject_task"]: (ns.BaseSubProjectTask, {"unit_timedelta": datetime.timedelta(seconds=secs)})}
         res.count("C16.models_with_subproject_task")
     m = B.build(spec, task_overrides=ov)
+    if case.get("subproject_task") is not None and case["i"] % 2 == 1:
+        # a *configured* sub-project task (as set_all_attributes_from_json leaves it)
+        sub = m.tasks[case["subproject_task"]]
+        sub.file_path = "sub_%d.json" % case["i"]
+        sub.read_json_file = True
+        sub.remove_absence_time_list = bool(case["i"] % 4 == 1)
+        sub.default_work_amount = float(1 + case["i"] % 7)
+        res.count("C16.configured_subproject_tasks")
     h = Hist(spec, order=order, model=m)
     st = case["stage"]
     ops = {"never": [], "initialized": [["init"]], "paused": [["pause", case["k"]]], "forward": [["sim"]],
